@@ -133,7 +133,7 @@ func (e *Engine) computeLeaves(t types.Type) []Leaf {
 	case *types.Slice:
 		return []Leaf{{"#b", "Int", nil, "slice.b"}, {"#o", "Int", nil, "slice.o"}, {"#l", "Int", nil, "slice.l"}, {"#c", "Int", nil, "slice.c"}}
 	case *types.Interface:
-		return []Leaf{{"#t", "Int", nil, "iface.t"}, {"#v", "Int", nil, "iface.v"}}
+		return []Leaf{{"#t", "Int", t, "iface.t"}, {"#v", "Int", nil, "iface.v"}}
 	case *types.Struct:
 		if !flattenableStruct(t) {
 			return []Leaf{{"", e.opaqueSort(t), t, ""}}
